@@ -184,6 +184,7 @@ func oneRun(c *core.Ctx, r *core.Result, idx int, rng *rand.Rand) {
 	// senders
 	var ops []clientOp
 	var opsMu sync.Mutex
+	var completed int64
 	var wg sync.WaitGroup
 	var highest int64 // highest number seen on the wire by the controller (approximate, for choosing ranges)
 	stopCtl := make(chan struct{})
@@ -205,6 +206,7 @@ func oneRun(c *core.Ctx, r *core.Result, idx int, rng *rand.Rand) {
 				opsMu.Lock()
 				ops = append(ops, op)
 				opsMu.Unlock()
+				atomic.AddInt64(&completed, 1)
 				if i%7 == g%7 {
 					runtime.Gosched()
 				}
@@ -281,7 +283,26 @@ func oneRun(c *core.Ctx, r *core.Result, idx int, rng *rand.Rand) {
 			}
 		}
 	}()
-	wg.Wait()
+	// progress watchdog: the senders must keep completing calls; no completed call at all for 120 s
+	// (in a process whose other runs progress) means the send path is blocked
+	sendersDone := make(chan struct{})
+	go func() { wg.Wait(); close(sendersDone) }()
+	last, lastChange := int64(-1), time.Now()
+waitSenders:
+	for {
+		select {
+		case <-sendersDone:
+			break waitSenders
+		case <-time.After(time.Second):
+			if n := atomic.LoadInt64(&completed); n != last {
+				last, lastChange = n, time.Now()
+			} else if time.Since(lastChange) > 120*time.Second {
+				close(stopCtl)
+				fail("send-path-blocked", "no SendToTarget call has returned for 120 s (%d of %d completed): the send path is blocked", n, cf.Senders*cf.PerSender)
+				return
+			}
+		}
+	}
 	close(stopCtl)
 	<-ctlDone
 	// quiescence: the reply to a TestRequest flushes the queue in order
